@@ -637,9 +637,9 @@ fn main() {
     ck.set_threads(16);
     ck.set_slots(false); // src/ctc.rs has no unsafe code; cases are small and many
 
-    let n = ck.pick(150_000, 3_000_000);
+    let n = ck.pick(100_000, 3_000_000);
     ck.prop("small-bruteforce", n, small_case, oracle_small);
-    ck.prop("large-bounds", ck.pick(15_000, 300_000), large_case, oracle_large);
+    ck.prop("large-bounds", ck.pick(10_000, 300_000), large_case, oracle_large);
 
     // enumerated tier
     if ck.selected("enumerated-alphabet3") {
